@@ -87,3 +87,13 @@ Theorem C05_eliminated_partial :
     Rp (sol "U†" * sol "H" * sol "U") == 0.
 Proof. intros. eapply nh_eliminated_partial; eassumption. Qed.
 Print Assumptions C05_eliminated_partial.
+
+(** The similarity clause is FALSE on the faithful model without the extra hypothesis: the
+    tables [nh_wit_sols] (3 states, blocks {0,1} | {2}, H_0 = diag(0,1,3), order <= 2) satisfy
+    every equation of the semantics of [nonhermitian_alg] ([nh_wit_check], decided by
+    vm_compute on the executable reading Alg/SemExec.v) while the kept part of U_inv H U
+    differs from H_tilde.  The same input fails on the implementation (known finding). *)
+From PV.Alg Require Import NHRefuted.
+Theorem C05_similarity_refuted : nh_wit_check = true /\ nh_wit_kept = false.
+Proof. exact nh_witness. Qed.
+Print Assumptions C05_similarity_refuted.
